@@ -297,12 +297,13 @@ func (p *Primary) StreamWAL(
 
 // sendUpdatedEntries sends any new WAL entries to the replica since its last acknowledged sequence
 func (p *Primary) sendUpdatedEntries(session *ReplicaSession) error {
-	// Take the mutex to safely read and update session state
+	// Read the session state under its mutex, but do NOT keep the mutex while
+	// reading the log: a writer holds the log's mutex while it pushes to this
+	// session (sendToReplica takes session.mu), so reading the log under
+	// session.mu is an ABBA deadlock that stops the whole primary
 	session.mu.Lock()
-	defer session.mu.Unlock()
-
-	// Get the next sequence number we should send
 	nextSequence := session.LastAckSequence + 1
+	session.mu.Unlock()
 
 	log.Info("Sending updated entries to replica %s starting from sequence %d",
 		session.ID, nextSequence)
@@ -341,7 +342,9 @@ func (p *Primary) sendUpdatedEntries(session *ReplicaSession) error {
 		Codec:      proto.CompressionCodec_NONE,
 	}
 
-	// Send to the replica (we're already holding the lock)
+	// Send to the replica
+	session.mu.Lock()
+	defer session.mu.Unlock()
 	if err := session.Stream.Send(response); err != nil {
 		return fmt.Errorf("failed to send entries: %w", err)
 	}
@@ -625,8 +628,11 @@ func (p *Primary) resendEntries(session *ReplicaSession, fromSequence uint64) er
 // getWALEntriesFromSequence retrieves WAL entries starting from the specified sequence
 // in batches of up to maxEntriesToReturn entries at a time
 func (p *Primary) getWALEntriesFromSequence(fromSequence uint64) ([]*wal.Entry, error) {
-	p.mu.RLock()
-	defer p.mu.RUnlock()
+	// p.mu is NOT taken here: the log's own mutex is held by a writer while it
+	// notifies this primary (broadcastToReplicas takes p.mu.RLock), so taking
+	// the log's mutex under p.mu deadlocks as soon as a session is registered
+	// or removed in between (a pending writer on p.mu blocks new readers).
+	// p.wal never changes after construction.
 
 	// Get current sequence in WAL (next sequence - 1)
 	// We subtract 1 to get the current highest assigned sequence
